@@ -4,7 +4,7 @@ CONSTANTS
   Alphabet = {"q", "b", "n", "0", "x", "N", "w", "L", "M"}
   MaxLen = 3
   Alphabet2 = {"q", "b", "n", "0", "x", "N", "w", "L", "M"}
-  MaxLen2 = 3
+  MaxLen2 = 2
   EscMap <- RepoEscMap
 INVARIANTS RoundTrip PairTheorem
 CHECK_DEADLOCK FALSE
